@@ -4,7 +4,7 @@
 about the grammar and the extracted parser model are about what the .pest file says now.
 
 Supported pest syntax (everything this grammar uses): rules `name = [_@$!]? { expr }`, choice `|`,
-sequence `~`, postfix `* + ? {n}`, strings with escapes, char ranges 'a'..'z', rule references,
+sequence `~`, postfix `* + ? {n}`, predicates `! &`, strings with escapes, char ranges 'a'..'z', rule references,
 parentheses, builtins SOI EOI ASCII_DIGIT ASCII_NONZERO_DIGIT ASCII_ALPHA ANY.  Anything else is
 an error (exit 2): the translator never guesses."""
 import re
@@ -154,7 +154,9 @@ class Parser:
     def postfix(self):
         k = self.peek()[0]
         if k in ("!", "&"):
-            raise Err("predicates (! &) are not supported by the translator")
+            self.i += 1
+            inner = self.postfix()
+            return ("not" if k == "!" else "and", inner)
         e = self.term()
         while True:
             k = self.peek()[0]
@@ -238,6 +240,10 @@ def emit_expr(e, names):
         return "(EOpt %s)" % emit_expr(e[1], names)
     if k == "rep":
         return "(ERep %s)" % emit_expr(e[1], names)
+    if k == "not":
+        return "(ENot %s)" % emit_expr(e[1], names)
+    if k == "and":
+        return "(EAnd %s)" % emit_expr(e[1], names)
     if k == "soi":
         return "ESoi"
     if k == "eoi":
